@@ -64,8 +64,9 @@ CHECKS = {
         "duplicate keys, allOf members all satisfied by the one merged object, undeclared keys typed by additionalProperties). Tie: the bytes "
         "the compiled package writes equal the model's JSON on every case, and the extracted validator accepts them. C07_oneof_conforms: a "
         "oneOf value encodes to a document that validates against the schema of the variant whose field is set.",
-   note="As C06. The validator is part of the specification (read it: ~60 lines). kin-openapi's VisitJSON is not used as a second opinion in "
-        "this round.",
+   note="As C06. The validator is part of the specification (read it: ~60 lines). One schema shape is outside the model — an array whose items "
+        "are a oneOf defined in place — and is judged in the run by kin-openapi's VisitJSON against the component schema (support for the "
+        "search, not a theorem).",
    ref="DESIGN.md section 4 (C06-C08)"),
  "C08": dict(
    technique="Coq proof, by nested induction over schemas with an invariant on the decoder's shared key map: strictness (missing required / wrong type rejected), completeness (every valid document accepted) and losslessness (the decoded value re-encodes to keep s j, the kept part of the document) + differential check on documents generated from the schema and their single-fault mutants",
